@@ -119,6 +119,16 @@ def _wf_fitted(E, s):
     return out
 
 
+def _same_fields(obj, before):
+    """frame of a query: the estimator has the attributes it had, each the same object (nothing is kept from one call to the next)"""
+    now = {k: v for k, v in obj.fields.items() if not k.startswith("$")}
+    return z3.BoolVal(set(now) == set(before) and all(now[k] is before[k] for k in now))
+
+
+def _fields_of(obj):
+    return {k: v for k, v in obj.fields.items() if not k.startswith("$")}
+
+
 @contract(P + "::PiecewiseEstimator.transform_bins", "C08")
 class TransformBins(Contract):
     """PROVED: every row gets exactly one bucket id - the id its tree leaf / discretizer cell was given at training time, -1 if that
@@ -136,7 +146,7 @@ class TransformBins(Contract):
         return {}
 
     def old(self, E, a):
-        return dict(X=a.X.snapshot(), w=a.X.cell.writes)
+        return dict(X=a.X.snapshot(), w=a.X.cell.writes, fields=_fields_of(a.self))
 
     @staticmethod
     def _tree_inv(E, L):
@@ -167,6 +177,8 @@ class TransformBins(Contract):
             out["the_id_is_the_bucket_of_the_row_or_minus_one_if_unseen"] = E.forall_range(
                 [(0, z(a.X.shape[0]))], lambda r: res.get(r) == z3.ToReal(bucket_of(E, a.self, X, r) + (1 if shifted else 0)))
             out["input_not_written"] = z3.BoolVal(a.X.cell.writes == old["w"])
+        # the routing is a function of (fitted estimator, row): a call leaves no state behind that a later call could read
+        out["estimator_left_as_it_was_nothing_kept_between_calls"] = _same_fields(a.self, old["fields"])
         return out
 
     canaries = {"ids_shifted_by_one": lambda E, a, res, old: TransformBins().ensures(E, a, res, old, shifted=True).get(
@@ -188,7 +200,7 @@ class ApplyBase(Contract):
 
     def old(self, E, a):
         name_bucket_function(E, a.self, "%s.%s" % (self.cls, self.method))
-        return dict(X=a.X.snapshot(), w=a.X.cell.writes, tl=len(E.trace),
+        return dict(X=a.X.snapshot(), w=a.X.cell.writes, tl=len(E.trace), fields=_fields_of(a.self),
                     ev=[len(m.events) for m in a.self.fields["estimators_"] + [a.self.fields["mean_estimator_"]]])
 
     def value(self, E, st, X, r, c):
@@ -202,7 +214,8 @@ class ApplyBase(Contract):
         k = len(members)
         ok = isinstance(res, NdArr)
         out = {"array": z3.BoolVal(ok), "input_not_written": z3.BoolVal(a.X.cell.writes == old["w"]),
-               "no_model_is_refitted": z3.BoolVal(all(len(m.events) == e for m, e in zip(members + [s.fields["mean_estimator_"]], old["ev"])))}
+               "no_model_is_refitted": z3.BoolVal(all(len(m.events) == e for m, e in zip(members + [s.fields["mean_estimator_"]], old["ev"]))),
+               "estimator_left_as_it_was_nothing_kept_between_calls": _same_fields(s, old["fields"])}
         if not ok:
             return out
         n = z(a.X.shape[0])
@@ -493,7 +506,7 @@ class Fit(Contract):
 
 
 META = dict(
-    level="proof", assumptions=["A1", "A2", "A6", "A7", "A8", "A9"],
+    level="proof", lean_files=["lemmas/Sums.lean"], assumptions=["A1", "A2", "A6", "A7", "A8", "A9"],
     trusted=["_mapping_train, TREE binner: PROVED on its own (real loop over the leaves, dictionary of unbounded symbolic size): buckets numbered 0..len-1 "
              "without repetition, every training row carries the number of its leaf, leaves_ = all leaves, and this IS the well-formedness "
              "transform_bins / predict require.  The discretizer branch of _mapping_train (sets of tuples, sorted) is bounded only, and fit uses a "
